@@ -46,7 +46,7 @@ pub const STRS: [&str; 10] = [
     "alpha", "beta", "alphabet", "bet", "", "gamma delta", "A", "alpha ", "Alpha", "zeta_9",
 ];
 pub const INTS: [i64; 14] = [-50, -3, -1, 0, 1, 2, 3, 4, 5, 7, 10, 12, 100, 2_147_483_648];
-pub const FLOATS: [f64; 10] = [-2.5, -1.0, 0.0, 0.25, 0.5, 1.0, 1.5, 2.0, 3.75, 100.0];
+pub const FLOATS: [f64; 13] = [-2.5, -1.0, 0.0, 0.25, 0.5, 1.0, 1.5, 2.0, 3.75, 100.0, 0.1, 0.2, 0.3];
 
 pub fn gen_value(rng: &mut Rng, ty: Ty) -> V {
     match ty {
@@ -65,6 +65,18 @@ pub fn gen_value(rng: &mut Rng, ty: Ty) -> V {
     }
 }
 
+/// Float values that only ever appear in fact stores (they have no GRL literal form or would
+/// not survive printing): infinities, a value one ulp away from 0.3, a denormal-ish tiny value.
+pub const STORE_ONLY_FLOATS: [f64; 6] = [f64::INFINITY, f64::NEG_INFINITY, 0.30000000000000004, 0.3, 1e-20, 0.1];
+
+fn gen_store_value(rng: &mut Rng, ty: Ty) -> V {
+    if ty == Ty::Float && rng.chance(1, 6) {
+        V::Float(*rng.pick(&STORE_ONLY_FLOATS))
+    } else {
+        gen_value(rng, ty)
+    }
+}
+
 /// A store over the schema: each field present with probability ~0.8.
 pub fn gen_store(rng: &mut Rng) -> Store {
     let mut top: BTreeMap<String, V> = BTreeMap::new();
@@ -76,7 +88,7 @@ pub fn gen_store(rng: &mut Rng) -> Store {
         if !rng.chance(4, 5) {
             continue;
         }
-        let v = gen_value(rng, ty);
+        let v = gen_store_value(rng, ty);
         if let Some(rest) = path.strip_prefix("Obj.inner.") {
             inner.insert(rest.to_string(), v);
         } else if let Some(rest) = path.strip_prefix("Obj.") {
